@@ -905,14 +905,16 @@ func c03Run(cs c03Case) (res c03Res) {
 	go func() { client.Close(); close(closed) }()
 	select {
 	case <-peerDone:
-	case <-time.After(cliDeadline):
+	case <-cliCase.Load().After(cliDeadline):
+		cliCase.Load().Fired()
 		fail("tie/peer", "scripted peer did not finish", nil)
 		res.ExitNow = true
 	}
 	peer.Shutdown()
 	select {
 	case <-closed:
-	case <-time.After(cliDeadline):
+	case <-cliCase.Load().After(cliDeadline):
+		cliCase.Load().Fired()
 		fail("close-hang", "Client.Close did not return within 20 s", cliDescribe(cliGoroutines2()))
 		res.ExitNow = true
 		return
@@ -1132,7 +1134,7 @@ func checkC03(c *lib.Ctx) {
 	if workers < 1 {
 		workers = 1
 	}
-	results, deaths, err := cliRunPool("c03", nil, raws, workers, 300*time.Second, nil)
+	results, deaths, err := cliRunPoolC("c03", nil, raws, workers, 300*time.Second, nil, func(i int) string { return c03Class(cases[i]) })
 	if err != nil {
 		r.Fail(lib.Failure{Kind: "tie", Key: "child-start", What: err.Error()})
 		return
@@ -1146,6 +1148,9 @@ func checkC03(c *lib.Ctx) {
 	var chanFam []string
 	var ctxSample []string
 	for i, cs := range cases {
+		if deaths[i] == cliNotRun {
+			continue
+		}
 		canon, _ := json.Marshal(cs)
 		if d := deaths[i]; d != nil {
 			r.Case(string(canon), true)
@@ -1187,7 +1192,7 @@ func checkC03(c *lib.Ctx) {
 			chanInputs = append(chanInputs, cs)
 			chanFam = append(chanFam, fam)
 			for k, v := range res.ChanClass {
-				r.Histogram["chan-model/request-class/"+k] += v
+				r.HistAdd("chan-model/request-class/"+k, v)
 			}
 		} else if len(res.Fails) > 0 {
 			r.Hist("chan-model/skipped/run-failed-its-direct-oracle/" + fam)
@@ -1223,7 +1228,7 @@ func checkC03(c *lib.Ctx) {
 		if cs.Kind == "ctx" {
 			abandoned += res.Reordered
 			for k, v := range res.Batches {
-				r.Histogram[fmt.Sprintf("ctx/late-reply-before-follow-up-reply/%02s", k)] += v
+				r.HistAdd(fmt.Sprintf("ctx/late-reply-before-follow-up-reply/%02s", k), v)
 			}
 			if len(ctxSample) == 0 && cs.Callers == 0 {
 				ctxSample = res.Trace
@@ -1231,11 +1236,11 @@ func checkC03(c *lib.Ctx) {
 		} else {
 			r.Hist(fmt.Sprintf("max-outstanding/%02d", min(res.MaxOut, 40)/4*4))
 			for k, v := range res.Batches {
-				r.Histogram[fmt.Sprintf("batch-size/%02s", k)] += v
+				r.HistAdd(fmt.Sprintf("batch-size/%02s", k), v)
 			}
 		}
 		for k, v := range res.OpHist {
-			r.Histogram["op/"+k] += v
+			r.HistAdd("op/"+k, v)
 		}
 		if len(r.Samples) < 4 && cs.Callers >= 3 && i%7 == 0 {
 			tr := res.Trace
@@ -1271,3 +1276,15 @@ func checkC03(c *lib.Ctx) {
 }
 
 var _ = peers.ErrTimeout
+
+// c03Class is the hang class of a case (lib/budget.go): the family and the peer's reply mode.
+func c03Class(cs c03Case) string {
+	fam := "perm"
+	if cs.Kind != "" {
+		fam = cs.Kind
+	}
+	if cs.Xfer {
+		fam += "+xfer"
+	}
+	return "c03/" + fam + "/" + cs.Mode
+}
